@@ -593,7 +593,7 @@ def main(tier):
     n_jobs = len(jobs)
     jobs = common.rotate(jobs)
     budget = float(os.environ.get('C18_BUDGET_S',
-                                  80 if tier == 'quick' else 840))
+                                  240 if tier == 'quick' else 840))
     deadline = time.time() + budget
     results = common.parallel_map(run_job, jobs, deadline=deadline)
     skipped, errors = 0, []
